@@ -85,6 +85,72 @@ def prog(r, long_run):
                 code += safe_block(r.randrange(1, 6))
     return code
 
+def timer_irq_programs(rnd, n, tag, first_id):
+    """programs in which 8-bit timer 0 raises its own interrupts (CMIA 36, CMIB 37, OVI 39): the handlers count their entries;
+    run through Cpu::run against the reference run loop with the tick-by-tick timer and the FIFO acceptance rule"""
+    lines = []
+    cid = first_id
+    for _ in range(n):
+        base = rnd.choice([0xffc000, 0x416900, 0x430000]) + 2 * rnd.randrange(16)
+        hbase = rnd.choice([0xffd800, 0x4a0000])
+        ta = rnd.choice([1, 2, 3, 5, 9, 0x10, 0x40, 0xfe, 0xff, rnd.randrange(1, 256)])
+        tb = rnd.choice([1, 2, 4, 7, 0x11, 0x80, 0xff, rnd.randrange(1, 256)])
+        if rnd.random() < 0.15:
+            tb = ta                                        # both compare matches on the same count
+        t0 = rnd.choice([0, 0, 0xf0, 0xfe, rnd.randrange(256)])
+        cclr = rnd.choice([0, 0, 1, 2, 3])
+        if cclr in (1, 2) and tb == ta:
+            cclr = 0
+        cks = rnd.choice([1, 1, 1, 2])
+        # the counter period must be longer than the handlers it triggers, or the main loop never advances (the
+        # implementation's run loop has no step limit): with counter clear on a compare match keep that match far enough
+        lim = 0x20 if cks == 1 else 4
+        if cclr == 1 and ta < lim:
+            ta = lim + ta
+        if cclr == 2 and tb < lim:
+            tb = lim + tb
+        tcr = cks | (cclr << 3) | rnd.choice([0x40, 0x80, 0x20, 0xc0, 0xe0, 0xa0, 0x60])
+        code = []
+        for reg, val in ((0x84, ta), (0x86, tb), (0x88, t0), (0x80, tcr)):
+            code += isa.enc_mov_imm("b", val, 14) + [0x3e, reg]
+        cnt = rnd.choice([3, 10, 40, 120, 255])
+        code += isa.enc_mov_imm("b", cnt, 14)
+        l = len(code)
+        body = []
+        for _b in range(rnd.randrange(1, 5)):
+            i = simple_insn(rnd)
+            lo = i[1] & 0x0f; hi = (i[1] >> 4) & 0x0f
+            regs = {lo & 7, hi & 7}
+            if i[0] >= 0xf0:
+                regs = {i[0] & 7}
+            if regs & {0, 1, 3, 4, 5, 6, 7}:
+                continue
+            body += i
+        code += body + [0x1a, 0x0e]
+        d = l - (len(code) + 2)
+        code += [0x46, d & 0xff]
+        exit_off = len(code)
+        code += [0x40, 0xfe]
+        mem = {base: code}
+        # handlers: INC.B R3H / R3L / R4H ; RTE
+        mem[hbase] = [0x0a, 0x03, 0x56, 0x70]
+        mem[hbase + 0x10] = [0x0a, 0x0b, 0x56, 0x70]
+        mem[hbase + 0x20] = [0x0a, 0x04, 0x56, 0x70]
+        mem[0x90] = isa.w32(hbase) + isa.w32(hbase + 0x10)
+        mem[0x9c] = isa.w32(hbase + 0x20)
+        er = [isa.rand_val(rnd, 32) for _ in range(8)]
+        er[2] = base
+        er[3] = 0
+        er[4] = 0
+        er[7] = 0xffff00 - 4 * rnd.randrange(8)
+        ccr = rnd.randrange(256) & 0x7f
+        cid += 1
+        m = ";".join("%x:%s" % (a, isa.hexb(b)) for a, b in mem.items())
+        lines.append("id=%x kind=run tag=%x sock= pc=0 ccr=%x exit=%x er=%s mem=%s ops=run:%x" % (
+            cid, tag, ccr, base + exit_off, ",".join("%x" % x for x in er), m, 20000))
+    return lines
+
+
 def generate(tier, seed, info):
     rnd = random.Random(seed * 131 + 13)
     tag = seed % 200 + 3
@@ -147,6 +213,10 @@ def generate(tier, seed, info):
         m = ";".join("%x:%s" % (a, isa.hexb(b)) for a, b in mem.items())
         lines.append("id=%x kind=run tag=%x sock= pc=0 ccr=%x exit=%x er=%s mem=%s ops=run:%x" % (
             cid, tag, ccr, base + exit_off, ",".join("%x" % x for x in er), m, 600000 if long_run else 20000))
+    tl = timer_irq_programs(rnd, 300 if tier == "quick" else 5000, tag, cid)
+    lines += tl
+    cid += len(tl)
+    info["timer_interrupt_programs"] = len(tl)
     # crafted: the cumulative count reaches EXACTLY a multiple of 2,000,000 (only every third multiple is reachable, charges being
     # multiples of 3): code in on-chip RAM (2 states per fetch): MOV.L #n,ER6 (6) ; L: DEC.L #1,ER6 (2) ; BNE L (4) ; fillers (2 each)
     for variant in range(2):
